@@ -100,7 +100,7 @@ CLAIMED = {
               "member with an undefined-behaviour precondition is registered for script use directly; every internal use of "
               "front/back/pop/operator[]/erase(it)/insert(it), iterator * ++ --, std::advance and built-in subscript is "
               "dominated by a test on the operated object whose failing arm throws; positions begin()+n are used by erase "
-              "only under 0 <= n < distance and by insert only under 0 <= n <= distance (exact bounds, no off-by-one). "
+              "only under 0 <= n < distance and by insert only under 0 <= n <= distance, and a sequence container is subscripted only under 0 <= i < size() (exact bounds, no off-by-one). "
               "Key lookups: a value is handed out through an iterator from find() only under != end(), through one from lower_bound()/upper_bound() only with a key-equivalence test as well; the library has no such site today, so the matcher is exercised on a fixture (fixtures/c12_lookup.cpp) on every run and must give the expected verdicts. The script-level half of insert_at stores a copy or an un-marked temporary (R12.5 = C17 R17.10). Not decided: step-by-step agreement of results with a list/dict/str model (holds by construction where the "
               "std member itself is bound); structural modification during iteration is excluded by the property."),
         technique="who-may-bind + check-dominates-use rules (structured dominance, comparison-fact extraction) over all template instantiations",
